@@ -6,10 +6,12 @@ goroutines hammer the real MemFs and DirFs with histories whose preconditions ho
 interleaving (each client works on the names and descriptors it created, plus one contended
 Create); porcupine checks them against the reference model; the same runs under -race.
 """
+import os
 import shutil
 
 import common as C
 import conc
+import c12
 
 LEVEL = "proof"
 
@@ -59,6 +61,22 @@ def check(ctx):
                 found = True
                 ctx.violation("counterexample", "fs (%s): data race, concurrent map access or runtime-detected deadlock inside the library" % impl,
                               {"proto": "hconc-fs-race", "impl": impl, "args": args, "seed": ctx.seed * 100 + k}, expected="no data race, no fatal error of the Go runtime", observed=report)
+        # ---- the one-client case of linearizability: directed sequential histories with links, deletes and listings that cross
+        #      directories (a cache or index kept per directory shows here first), both implementations against the reference model
+        ops = list(c12.DIRECTED)
+        want = c12.model_run("ref", ops)
+        for impl in ("mem", "dir"):
+            shutil.rmtree(os.path.join(scratch, "fsroot-dir"), ignore_errors=True)
+            got = c12.run_real(impl, ops, scratch)
+            stats.setdefault("sequential", {"rounds": 0, "operations": 0})
+            stats["sequential"]["rounds"] += sum(1 for o in ops if o == "newfs")
+            stats["sequential"]["operations"] += len(ops)
+            if got != want and not found:
+                found = True
+                k = next(i for i in range(len(ops)) if got[i] != want[i])
+                start = max(i for i in range(k + 1) if ops[i] == "newfs")
+                ctx.violation("counterexample", "fs (%s): a history with a single client is not what the reference model gives" % impl,
+                              {"proto": "fs", "impl": impl, "ops": ops[start:k + 1]}, expected=want[start:k + 1], observed=got[start:k + 1])
     finally:
         shutil.rmtree(scratch, ignore_errors=True)
     for key_, (e, ex) in known_hits.items():
